@@ -112,3 +112,15 @@ _add("C09", H("H09_layout", quick={"wall": "140s", "shards": 8, "param": "maxDoc
 _add("C12", H("H12_syn", common={"vectors": True}, quick={"wall": "140s", "shards": 8, "param": "maxSyn=1"}, thorough={"wall": "1500s", "shards": 16, "param": "maxSyn=2"}))
 # a segment above the 1000-vector threshold: clustered index class, cluster API of the filtered search
 _add("C14", H("H14_large", common={"vectors": True}, quick={"wall": "200s", "shards": 16, "shard-depth": 4}, thorough={"wall": "1500s", "shards": 16, "shard-depth": 4, "param": "nLarge=2100"}))
+
+
+# thorough wall budgets: the first budgeted run of a property gets 600 s, the others 240 s (a thorough check
+# also repeats the quick configurations, which are exhaustive inside their bounds)
+for _pid in PLAN:
+    _first = True
+    for _h in PLAN[_pid]["harnesses"]:
+        _t = _h["thorough"]
+        if _t.get("skip") or "wall" not in _t:
+            continue
+        _t["wall"] = "600s" if _first else "240s"
+        _first = False
